@@ -48,13 +48,16 @@ def pool():
           # coordinates -1 and -2 together (CPython hash(-1) == hash(-2)): a unit cube between z=-2 and z=-1 and its two face planes
           X.Ph(tuple(product((0, 1), (0, 1), (-2, -1)))), X.Pl((0, 0, -1), (0, 0, 1)), X.Pl((0, 0, -2), (0, 0, 1)),
           X.Pg(((-1, 0, -1), (2, 0, -1), (2, 2, -1), (-1, 2, -1)))]
+    # half-lines in the plane z=0 whose carrier line x+y=0 touches the polygons there in the single vertex (0,0,0): one pointing away
+    # from it (disjoint from the polygons although its carrier is not), one pointing at it (w6_C12_2)
+    P += [X.Hl((1, -1, 0), (1, -1, 0)), X.Hl((1, -1, 0), (-1, 1, 0))]
     return P
 
 
 def quick_pool():
     P = pool()
     # every second object plus all bodies
-    return [o for i, o in enumerate(P) if i % 2 == 0 or o[0] in X.BODY]
+    return [o for i, o in enumerate(P) if i % 2 == 0 or o[0] in X.BODY or i >= len(P) - 2]
 
 
 def vertex_viols(fam, a, b, la, lb, r, e, path):
